@@ -224,3 +224,23 @@ from ..contracts.dist_p import IsiDistanceP, SpikeDistanceP  # noqa
 kernel('isidist_pyx.P', IsiDistanceP(), 'P', standin='isidist_pyx.B', timeout_ms=60000)
 kernel('spikedist_pyx.P', SpikeDistanceP(RI=False), 'P', standin='spikedist_pyx.B', timeout_ms=60000)
 kernel('spikedist_ri_pyx.P', SpikeDistanceP(RI=True), 'P', standin='spikedist_pyx.B', timeout_ms=60000)
+from ..contracts.value_p import SinglePassValueP  # noqa
+kernel('syncval_pyx.P', SinglePassValueP(DIST, 'coincidence_value_cython', 'sync'), 'P', standin='syncval_pyx.B', timeout_ms=60000)
+kernel('orderval_pyx.P', SinglePassValueP(DIRPYX, 'spike_train_order_cython', 'order'), 'P', standin='orderval_pyx.B', timeout_ms=60000)
+kernel('dirval_pyx.P', SinglePassValueP(DIRPYX, 'spike_directionality_cython', 'dir'), 'P', standin='dirval_pyx.B', timeout_ms=60000)
+from ..contracts.funcs_p import IntegralP, EvaluateP, AvrgP, PlottableP, MethodP  # noqa
+for _k in ('pwc', 'pwl', 'disc'):
+    for _v in ('none', 'one'):
+        kernel('%s_integral_%s.P' % (_k, _v), IntegralP(_k, _v), 'P', standin='%s_integral.B' % _k, timeout_ms=60000)
+for _k in ('pwc', 'pwl'):
+    kernel('%s_call.P' % _k, EvaluateP(_k), 'P', standin='%s_call.B' % _k, timeout_ms=60000)
+for _k in ('pwc', 'pwl', 'disc'):
+    for _v in ('none', 'one', 'list2'):
+        kernel('%s_avrg_%s.P' % (_k, _v), AvrgP(_k, _v), 'P', standin='%s_avrg.B' % _k, timeout_ms=60000)
+for _k in ('pwc', 'pwl'):
+    kernel('%s_plot.P' % _k, PlottableP(_k), 'P', standin='%s_plot.B' % _k, timeout_ms=60000)
+for _k in ('pwc', 'pwl', 'disc'):
+    kernel('%s_mul.P' % _k, MethodP(_k, 'mul_scalar'), 'P', standin='%s_mul.B' % _k, timeout_ms=60000)
+    kernel('%s_copy.P' % _k, MethodP(_k, 'copy'), 'P', standin='%s_copy.B' % _k, timeout_ms=60000)
+    kernel('%s_add_fb.P' % _k, MethodP(_k, 'add', 'fallback'), 'P', standin='%s_add_fb.B' % _k, timeout_ms=60000)
+    kernel('%s_add_cy.P' % _k, MethodP(_k, 'add', 'compiled'), 'P', standin='%s_add_cy.B' % _k, timeout_ms=60000)
